@@ -25,6 +25,10 @@ def same(a, b):
     return (np.isnan(a) and np.isnan(b)) or a == b
 
 
+def same_arr(a, b):
+    return np.array_equal(np.asarray(a), np.asarray(b), equal_nan=True)
+
+
 def _run_study(SF, how):
     # unordered pool APIs may deliver in any order: use that freedom against the caller (harness-side wrapper)
     with impl.adversarial_pool():
@@ -46,6 +50,8 @@ def check(rep, tier):
         N = int(np.prod(cfg["shape"]))
         store = rng.choice(["all", "all", [0], "uniform_2", "corner", None])
         Nv_ = cfg["shape"][0] * cfg["shape"][1] * cfg["shape"][2]
+        if ri < 2:
+            store = "all"        # always: the run-export-edit-run-export history below needs a recorded run
         if ri % 5 == 1 and Nv_ >= 3:
             store = [(Nv_ - 1, 0), [Nv_ - 1, Nv_ // 2, 0], (1, 0, Nv_ - 1, 1)][(ri // 5) % 3]       # integer requests that are not in ascending order
         try:
@@ -92,6 +98,35 @@ def check(rep, tier):
                         rep.violation("traj-table-cell", "trajectory table row (vial %d, %s, t=%r) = %r does not equal the stored state (%s, n_timeSteps=%d, %d columns)" % (
                             v, stt, t, row["value"], cfg["shape"], ns, ncols), dict(config=cfg, storeStates=store, n_timeSteps=ns))
                         break
+        # history on the same object: run, export, the cooling program edited IN PLACE (the seed untouched), run again, export with the same
+        # n_timeSteps: the second table holds the numbers of the second run
+        if store is not None and tdf is not None and stored and (ri % 4 == 2 or ri < 3):
+            try:
+                def edit(S_):
+                    S_.opcond.cooling["rate"] = S_.opcond.cooling["rate"] * 1.7
+                r2 = fr.rerun(r, edit)
+                with impl.quiet():
+                    sdf2, tdf2 = S.to_frame(n_timeSteps=ns)
+                rep.case("rerun-export " + repr((cfg["shape"], cfg["seed"], store, ns)), nontrivial=not (same_arr(r2["XT"], r["XT"]) if r2["XT"].shape == r["XT"].shape else False))
+                rep.count("snowflake run-export-edit-run-export")
+                tcol2 = {float(t): k for k, t in enumerate(np.arange(r2["XT"].shape[1]) * S.dt)}
+                for _, row in tdf2.iterrows():
+                    v, stt, t = int(row["vial"]), row["state"], float(row["Time"])
+                    c = tcol2.get(t, -1)
+                    src = (r2["XS"] if stt == "sigma" else r2["XT"])
+                    if v not in pos or c < 0 or not same(row["value"], src[pos[v], c]):
+                        rep.violation("traj-table-stale-after-rerun", "run, to_frame, cooling rate edited in place, run, to_frame(n_timeSteps=%d): trajectory table row (vial %d, %s, t=%r) = %r, the stored state of the "
+                                      "second run is %r (%s)" % (ns, v, stt, t, row["value"], src[pos[v], c] if v in pos and c >= 0 else None, cfg["shape"]),
+                                      dict(config=cfg, storeStates=store, n_timeSteps=ns, history=["run", "to_frame", "cooling rate x1.7 in place", "run", "to_frame"]))
+                        break
+                for _, row in sdf2.iterrows():
+                    v, var = int(row["vial"]), row["variable"]
+                    if var not in VARS or not same(row["value"], r2["stats"][var][v]):
+                        rep.violation("stats-table-stale-after-rerun", "run, to_frame, cooling rate edited in place, run, to_frame: statistics table row (vial %d, %s) = %r, second run holds %r" % (
+                            v, var, row["value"], r2["stats"].get(var, [None] * (v + 1))[v]), dict(config=cfg, storeStates=store, history=["run", "to_frame", "edit", "run", "to_frame"]))
+                        break
+            except Exception as e:
+                rep.violation("to_frame-crash %s" % type(e).__name__, "run, to_frame, edit, run, to_frame raises %r (%s, storeStates=%r)" % (e, cfg["shape"], store), dict(config=cfg, storeStates=store))
         # Snowfall
         Nrep, fp = 0, []
         if ri % 3 == 0:
